@@ -40,6 +40,7 @@ type Solver struct {
 	TimeoutMs int
 	HardMs    int
 	OneShots  int
+	Resyncs   int
 	Died      bool // the process died during the current path: its context is lost
 	Trace   io.Writer
 }
@@ -263,11 +264,34 @@ func (s *Solver) Check(extra *Term) Result {
 	t0 := time.Now()
 	r := s.checkSat()
 	s.send("(pop 1)")
-	if r == Unknown && s.HardMs > 0 {
-		r, _ = s.oneShot(extra, nil)
+	if r == Unknown && !s.Died {
+		s.resync()
+		if s.HardMs > 0 {
+			r, _ = s.oneShot(extra, nil)
+		}
 	}
 	s.dumpSlow(extra, r, time.Since(t0))
 	return r
+}
+
+// resync restarts the solver process and replays the path context.  It is used
+// after every incremental timeout: z3 4.8.12's incremental core was observed to
+// return verdicts with models that violate asserted constraints after a
+// cancelled check, so a cancelled process is never asked again.
+func (s *Solver) resync() {
+	logTxt := s.log.String()
+	defd, tabs := s.defined, s.tables
+	tr := s.Trace
+	s.Close()
+	if err := s.start(); err != nil {
+		s.Died = true
+		return
+	}
+	s.Trace = tr
+	s.log.WriteString(logTxt)
+	s.defined, s.tables = defd, tabs
+	io.WriteString(s.in, logTxt)
+	s.Resyncs++
 }
 
 // oneShot re-solves the current context plus extra in a fresh, non-incremental
@@ -332,7 +356,7 @@ var slowDir = os.Getenv("SYMGO_SLOWDIR")
 var slowN int32
 
 func (s *Solver) dumpSlow(extra *Term, r Result, d time.Duration) {
-	if slowDir == "" || d < 3*time.Second {
+	if slowDir == "" || d < time.Second {
 		return
 	}
 	n := atomic.AddInt32(&slowN, 1)
@@ -356,11 +380,14 @@ func (s *Solver) CheckModel(extra *Term, vars []*Term) (Result, map[*Term]uint64
 	}
 	t0 := time.Now()
 	r := s.checkSat()
-	if r == Unknown && s.HardMs > 0 {
-		s.send("(pop 1)")
-		r2, m2 := s.oneShot(extra, vars)
-		s.dumpSlow(extra, r2, time.Since(t0))
-		return r2, m2
+	if r == Unknown && !s.Died {
+		s.resync()
+		if s.HardMs > 0 {
+			r2, m2 := s.oneShot(extra, vars)
+			s.dumpSlow(extra, r2, time.Since(t0))
+			return r2, m2
+		}
+		return r, nil
 	}
 	s.dumpSlow(extra, r, time.Since(t0))
 	var m map[*Term]uint64
